@@ -1,4 +1,503 @@
-//! `mwverif highlight ...` -- see DESIGN.md; implemented by the check of the corresponding property.
-pub fn main(_args: &[String]) -> Result<(), String> {
-    Err("highlight: not implemented yet".into())
+//! `mwverif highlight ...` -- conformance of marwood's `ReplHighlighter` with spec/Highlight.tla (C20).
+//!
+//! `mwverif highlight replay <file|-> [maxper=N]`
+//!     S -> I.  Reads the cases TLC generated from Gen_Highlight (one JSON object per line, or the raw
+//!     TLC line `<<"REPLAY", "json">>`; other lines are ignored), calls the real
+//!     `ReplHighlighter::highlight` and `highlight_check` under catch_unwind and compares the result with
+//!     the outcome the specification requires.  Prints one JSON line per mismatch (at most `maxper` per
+//!     class of structural tags; all are counted) and a final `{"summary":...}` line.
+//!
+//! `mwverif highlight unicode seed=S count=K out=FILE [maxlen=N]`
+//!     I -> S.  Generates seeded random texts -- sequences of lexical items with multi-byte identifiers and
+//!     character literals, and raw sequences of code points -- with random byte cursors (also past the end and
+//!     inside multi-byte characters), runs the real methods and records what they did as ndjson for
+//!     Trace_Highlight.tla, which decides.
+//!
+//! `mwverif highlight one <cursor> <text>`   prints what the implementation does (debugging aid).
+use crate::gen_cmd::{get, kv};
+use crate::rng::Rng;
+use marwood::syntax::ReplHighlighter;
+use serde_json::{json, Map, Value};
+use std::collections::BTreeMap;
+use std::io::{BufRead, Write};
+use std::panic::{catch_unwind, AssertUnwindSafe};
+
+/// The escape pair `highlight` emits (format constants, read off marwood/src/syntax.rs).
+const ESC_ON: &str = "\x1b[4m";
+const ESC_OFF: &str = "\x1b[0m";
+
+#[derive(Debug, Clone, PartialEq)]
+enum Hl {
+    Same,
+    /// the text with the escape pair around the byte span
+    Wrap(usize, usize),
+    Other(String),
+    Panic(String),
+}
+
+fn panic_msg(e: Box<dyn std::any::Any + Send>) -> String {
+    if let Some(s) = e.downcast_ref::<&str>() {
+        s.to_string()
+    } else if let Some(s) = e.downcast_ref::<String>() {
+        s.clone()
+    } else {
+        "panic".into()
+    }
+}
+
+fn wrapped(text: &str, s: usize, e: usize) -> Option<String> {
+    if s <= e && e <= text.len() && text.is_char_boundary(s) && text.is_char_boundary(e) {
+        Some(format!("{}{}{}{}{}", &text[..s], ESC_ON, &text[s..e], ESC_OFF, &text[e..]))
+    } else {
+        None
+    }
+}
+
+/// Run `highlight` and describe the result relative to the input.
+fn run_highlight(hl: &ReplHighlighter, text: &str, cursor: usize) -> (Hl, Option<String>) {
+    let r = catch_unwind(AssertUnwindSafe(|| hl.highlight(text, cursor).into_owned()));
+    match r {
+        Err(e) => (Hl::Panic(panic_msg(e)), None),
+        Ok(out) => {
+            if out == text {
+                return (Hl::Same, Some(out));
+            }
+            // is it the input with exactly one escape pair inserted?
+            if out.len() == text.len() + ESC_ON.len() + ESC_OFF.len() {
+                let ob = out.as_bytes();
+                let tb = text.as_bytes();
+                let mut s = 0;
+                while s < tb.len() && ob[s] == tb[s] {
+                    s += 1;
+                }
+                // the first difference is where ESC_ON starts (the text itself may contain ESC)
+                for s0 in [s, s.saturating_sub(1), s.saturating_sub(2), s.saturating_sub(3)] {
+                    if !out.is_char_boundary(s0) || !out[s0..].starts_with(ESC_ON) {
+                        continue;
+                    }
+                    let rest = &out[s0 + ESC_ON.len()..];
+                    let mut from = 0;
+                    while let Some(i) = rest[from..].find(ESC_OFF) {
+                        let e = s0 + from + i;
+                        if let Some(w) = wrapped(text, s0, e) {
+                            if w == out {
+                                return (Hl::Wrap(s0, e), Some(out));
+                            }
+                        }
+                        from += i + 1;
+                        while from < rest.len() && !rest.is_char_boundary(from) {
+                            from += 1;
+                        }
+                    }
+                }
+            }
+            (Hl::Other(out.clone()), Some(out))
+        }
+    }
+}
+
+fn run_check(hl: &ReplHighlighter, text: &str, cursor: usize) -> Result<bool, String> {
+    catch_unwind(AssertUnwindSafe(|| hl.highlight_check(text, cursor))).map_err(panic_msg)
+}
+
+fn cps_of(s: &str) -> Value {
+    Value::Array(s.chars().map(|c| json!(c as u32)).collect())
+}
+
+fn hl_json(h: &Hl) -> Value {
+    match h {
+        Hl::Same => json!({"k": "same"}),
+        Hl::Wrap(s, e) => json!({"k": "wrap", "bs": s, "be": e}),
+        Hl::Other(o) => json!({"k": "other", "cps": cps_of(o)}),
+        Hl::Panic(m) => json!({"k": "panic", "msg": m}),
+    }
+}
+
+fn is_bracket_spelling(s: &str) -> bool {
+    matches!(s, "(" | ")" | "[" | "]" | "{" | "}" | "#(")
+}
+
+/// the weak clauses: unchanged, or one escape pair around one bracket spelling
+fn weak(text: &str, h: &Hl) -> bool {
+    match h {
+        Hl::Same => true,
+        Hl::Wrap(s, e) => is_bracket_spelling(&text[*s..*e]),
+        _ => false,
+    }
+}
+
+fn text_of(case: &Value) -> Result<String, String> {
+    let mut s = String::new();
+    for c in case["cps"].as_array().ok_or("case without cps")? {
+        let u = c.as_u64().ok_or("cps: not a number")? as u32;
+        s.push(char::from_u32(u).ok_or("cps: not a scalar value")?);
+    }
+    Ok(s)
+}
+
+/// `<<"REPLAY", "json with \" and \\ escaped">>`  ->  json
+fn unwrap_tlc_line(line: &str) -> Option<String> {
+    let l = line.trim();
+    if l.starts_with('{') {
+        return Some(l.to_string());
+    }
+    let rest = l.strip_prefix("<<\"REPLAY\", \"")?;
+    let body = rest.strip_suffix("\">>")?;
+    let mut out = String::with_capacity(body.len());
+    let mut it = body.chars();
+    while let Some(c) = it.next() {
+        if c == '\\' {
+            match it.next() {
+                Some('n') => out.push('\n'),
+                Some('t') => out.push('\t'),
+                Some(d) => out.push(d),
+                None => {}
+            }
+        } else {
+            out.push(c);
+        }
+    }
+    Some(out)
+}
+
+struct Class {
+    count: u64,
+    printed: u64,
+    min: Option<(usize, usize, Value)>,
+}
+
+fn replay(args: &[String]) -> Result<(), String> {
+    if args.is_empty() {
+        return Err("highlight replay <file|-> [maxper=N]".into());
+    }
+    let m = kv(&args[1..]);
+    let maxper: u64 = get(&m, "maxper", 20);
+    // echo=1: lines that are not cases (TLC's own output when TLC is piped in) are copied to stderr
+    let echo: u32 = get(&m, "echo", 0);
+    // ntout=<file>: one line `<cursor> <code points>` per distinct case whose required output differs from the input
+    let mut ntout = match m.get("ntout") {
+        Some(p) => Some(std::io::BufWriter::new(std::fs::File::create(p).map_err(|e| e.to_string())?)),
+        None => None,
+    };
+    let mut nontrivial = std::collections::HashSet::new();
+    let mut samples: Vec<Value> = vec![];
+    let rd: Box<dyn BufRead> = if args[0] == "-" {
+        Box::new(std::io::BufReader::new(std::io::stdin()))
+    } else {
+        Box::new(std::io::BufReader::new(std::fs::File::open(&args[0]).map_err(|e| format!("{}: {}", args[0], e))?))
+    };
+    let hl = ReplHighlighter::new();
+    let out = std::io::stdout();
+    let mut out = std::io::BufWriter::new(out.lock());
+    let (mut cases, mut mism, mut panics) = (0u64, 0u64, 0u64);
+    let mut by_req: BTreeMap<String, u64> = BTreeMap::new();
+    let mut either_same = 0u64;
+    let mut either_wrap = 0u64;
+    let mut any_same = 0u64;
+    let mut any_wrap = 0u64;
+    let mut chk_required_false = 0u64;
+    let mut chk_true = 0u64;
+    let mut texts = std::collections::HashSet::new();
+    let mut classes: BTreeMap<String, Class> = BTreeMap::new();
+    for line in rd.lines() {
+        let line = line.map_err(|e| e.to_string())?;
+        let js = match unwrap_tlc_line(&line) {
+            Some(j) => j,
+            None => {
+                if echo > 0 {
+                    eprintln!("{}", line);
+                }
+                continue;
+            }
+        };
+        let case: Value = serde_json::from_str(&js).map_err(|e| format!("bad case line: {}: {}", e, js))?;
+        let text = text_of(&case)?;
+        let p = case["p"].as_u64().ok_or("case without p")? as usize;
+        let k = case["k"].as_str().ok_or("case without k")?.to_string();
+        let bs = case["bs"].as_u64().unwrap_or(0) as usize;
+        let be = case["be"].as_u64().unwrap_or(0) as usize;
+        let chk_req = case["chk"].as_str().ok_or("case without chk")?;
+        cases += 1;
+        texts.insert(text.clone());
+        *by_req.entry(k.clone()).or_insert(0) += 1;
+        if (k == "wrap" || k == "either") && nontrivial.insert((text.clone(), p)) {
+            if let Some(f) = ntout.as_mut() {
+                writeln!(f, "{} {}", p, case["cps"]).map_err(|e| e.to_string())?;
+            }
+            if samples.len() < 2 && nontrivial.len() % 997 == 1 {
+                samples.push(json!({"text": text, "cursor": p, "required": {"k": k, "underline_bytes": [bs, be]},
+                                    "check_must_be": chk_req}));
+            }
+        }
+        let (got, _) = run_highlight(&hl, &text, p);
+        let chk = run_check(&hl, &text, p);
+        if matches!(got, Hl::Panic(_)) {
+            panics += 1;
+        }
+        if chk.is_err() {
+            panics += 1;
+        }
+        let ok_hl = match k.as_str() {
+            "same" => got == Hl::Same,
+            "wrap" => got == Hl::Wrap(bs, be),
+            "either" => {
+                if got == Hl::Same {
+                    either_same += 1;
+                } else if got == Hl::Wrap(bs, be) {
+                    either_wrap += 1;
+                }
+                got == Hl::Same || got == Hl::Wrap(bs, be)
+            }
+            "any" => {
+                if got == Hl::Same {
+                    any_same += 1;
+                } else if let Hl::Wrap(_, _) = got {
+                    any_wrap += 1;
+                }
+                weak(&text, &got)
+            }
+            other => return Err(format!("unknown requirement {}", other)),
+        };
+        if chk_req == "false" {
+            chk_required_false += 1;
+        }
+        if chk == Ok(true) {
+            chk_true += 1;
+        }
+        let ok_chk = match (&chk, chk_req) {
+            (Err(_), _) => false,
+            (Ok(true), "false") => false,
+            _ => true,
+        };
+        for (what, ok) in [("highlight", ok_hl), ("check", ok_chk)] {
+            if ok {
+                continue;
+            }
+            mism += 1;
+            let tags: Vec<String> = case["tags"]
+                .as_array()
+                .map(|a| a.iter().filter_map(|t| t.as_str().map(|s| s.to_string())).collect())
+                .unwrap_or_default();
+            let gotk = match (&got, what) {
+                (_, "check") => match &chk {
+                    Ok(b) => format!("{}", b),
+                    Err(_) => "panic".into(),
+                },
+                (Hl::Same, _) => "same".into(),
+                (Hl::Wrap(_, _), _) => "wrap".into(),
+                (Hl::Other(_), _) => "other".into(),
+                (Hl::Panic(_), _) => "panic".into(),
+            };
+            let key = format!("{}|req:{}|got:{}|{}", what, if what == "check" { chk_req } else { k.as_str() }, gotk, tags.join(","));
+            let rec = json!({
+                "mismatch": what, "class": key, "text": text, "case": case,
+                "got": {"hl": hl_json(&got),
+                        "chk": match &chk { Ok(b) => json!(b), Err(e) => json!({"panic": e}) }},
+            });
+            let c = classes.entry(key).or_insert(Class { count: 0, printed: 0, min: None });
+            c.count += 1;
+            let size = (text.chars().count(), p);
+            if c.min.as_ref().map(|(a, b, _)| size < (*a, *b)).unwrap_or(true) {
+                c.min = Some((size.0, size.1, rec.clone()));
+            }
+            if c.printed < maxper {
+                c.printed += 1;
+                writeln!(out, "{}", rec).map_err(|e| e.to_string())?;
+            }
+        }
+    }
+    let mut cl = Map::new();
+    for (k, c) in &classes {
+        cl.insert(k.clone(), json!({"count": c.count, "min": c.min.as_ref().map(|x| x.2.clone())}));
+    }
+    writeln!(
+        out,
+        "{}",
+        json!({"summary": true, "cases": cases, "texts": texts.len(), "mismatches": mism, "panics": panics,
+               "required": by_req, "either_resolved_same": either_same, "either_resolved_wrap": either_wrap,
+               "any_resolved_same": any_same, "any_resolved_wrap": any_wrap,
+               "check_required_false": chk_required_false, "check_returned_true": chk_true,
+               "nontrivial_distinct": nontrivial.len(), "samples": samples,
+               "classes": cl})
+    )
+    .map_err(|e| e.to_string())?;
+    Ok(())
+}
+
+// ------------------------------------------------------------------------------------------ I -> S
+
+struct ItemDef {
+    k: &'static str,
+    sh: &'static str,
+    s: &'static str,
+    w: u32,
+}
+
+const ITEMS: &[ItemDef] = &[
+    ItemDef { k: "open", sh: "round", s: "(", w: 14 },
+    ItemDef { k: "close", sh: "round", s: ")", w: 14 },
+    ItemDef { k: "open", sh: "square", s: "[", w: 4 },
+    ItemDef { k: "close", sh: "square", s: "]", w: 4 },
+    ItemDef { k: "open", sh: "curly", s: "{", w: 2 },
+    ItemDef { k: "close", sh: "curly", s: "}", w: 2 },
+    ItemDef { k: "vopen", sh: "round", s: "#(", w: 6 },
+    ItemDef { k: "quote", sh: "-", s: "\"", w: 3 },
+    ItemDef { k: "semi", sh: "-", s: ";", w: 2 },
+    ItemDef { k: "nl", sh: "-", s: "\n", w: 3 },
+    ItemDef { k: "sp", sh: "-", s: " ", w: 8 },
+    ItemDef { k: "atom", sh: "-", s: "a", w: 4 },
+    ItemDef { k: "atom", sh: "-", s: "x", w: 2 },
+    ItemDef { k: "atom", sh: "-", s: "\u{3bb}", w: 4 },
+    ItemDef { k: "atom", sh: "-", s: "\u{e9}", w: 3 },
+    ItemDef { k: "atom", sh: "-", s: "\u{65e5}", w: 4 },
+    ItemDef { k: "atom", sh: "-", s: "\u{1f600}", w: 4 },
+    ItemDef { k: "chr", sh: "-", s: "#\\(", w: 2 },
+    ItemDef { k: "chr", sh: "-", s: "#\\)", w: 2 },
+    ItemDef { k: "chr", sh: "-", s: "#\\[", w: 1 },
+    ItemDef { k: "chr", sh: "-", s: "#\\\"", w: 1 },
+    ItemDef { k: "chr", sh: "-", s: "#\\;", w: 1 },
+    ItemDef { k: "chr", sh: "-", s: "#\\ ", w: 1 },
+    ItemDef { k: "chr", sh: "-", s: "#\\\u{3bb}", w: 1 },
+    ItemDef { k: "chr", sh: "-", s: "#\\\u{1f600}", w: 1 },
+];
+
+/// code points for raw texts: brackets, every character the lexer treats specially, and multi-byte ones
+const RAW: &[char] = &[
+    '(', ')', '[', ']', '{', '}', '#', '\\', '"', ';', '\n', ' ', '\t', '\'', '`', ',', '.', '|', '@', '+', '-', '0',
+    '7', 'a', 'f', 't', 'x', 'e', 'Z', '!', '\r', '\u{0}', '\u{1b}', '\u{7f}', '\u{a0}', '\u{e9}', '\u{df}',
+    '\u{3bb}', '\u{301}', '\u{2028}', '\u{3000}', '\u{65e5}', '\u{feff}', '\u{fffd}', '\u{1f600}', '\u{10ffff}',
+];
+
+fn pick_cursor(r: &mut Rng, text: &str) -> usize {
+    let n = text.len();
+    match r.below(8) {
+        // anywhere, also past the end
+        0..=3 => r.below(n + 3),
+        // inside a multi-byte character, if there is one
+        4 | 5 => {
+            let inside: Vec<usize> = (0..n).filter(|i| !text.is_char_boundary(*i)).collect();
+            if inside.is_empty() {
+                r.below(n + 3)
+            } else {
+                *r.pick(&inside)
+            }
+        }
+        // at or right after a bracket character
+        _ => {
+            let near: Vec<usize> = text
+                .char_indices()
+                .filter(|(_, c)| "()[]{}".contains(*c))
+                .flat_map(|(i, _)| [i, i + 1])
+                .collect();
+            if near.is_empty() {
+                r.below(n + 3)
+            } else {
+                *r.pick(&near)
+            }
+        }
+    }
+}
+
+fn observe(hl: &ReplHighlighter, text: &str, p: usize) -> (Value, Value) {
+    let (got, out) = run_highlight(hl, text, p);
+    let o = match (&got, out) {
+        (Hl::Panic(m), _) => json!({"k": "panic", "msg": m}),
+        (Hl::Same, _) => json!({"k": "same"}),
+        (_, Some(o)) => json!({"k": "text", "cps": cps_of(&o)}),
+        _ => json!({"k": "panic", "msg": "no output"}),
+    };
+    let c = match run_check(hl, text, p) {
+        Ok(true) => json!("true"),
+        Ok(false) => json!("false"),
+        Err(_) => json!("panic"),
+    };
+    (o, c)
+}
+
+fn unicode(args: &[String]) -> Result<(), String> {
+    let m = kv(args);
+    let seed: u64 = get(&m, "seed", 0);
+    let count: usize = get(&m, "count", 1000);
+    let maxlen: usize = get(&m, "maxlen", 24);
+    let out = m.get("out").cloned().ok_or("out=<file> required")?;
+    let mut f = std::io::BufWriter::new(std::fs::File::create(&out).map_err(|e| e.to_string())?);
+    let hl = ReplHighlighter::new();
+    let mut r = Rng::new(seed ^ 0xC20);
+    let weights: Vec<u32> = ITEMS.iter().map(|i| i.w).collect();
+    let (mut changed, mut inside, mut past, mut multibyte) = (0u64, 0u64, 0u64, 0u64);
+    for id in 1..=count {
+        let structured = id % 4 != 0;
+        let (text, items) = if structured {
+            let n = 1 + r.below(maxlen);
+            // some texts without strings and comments, so that long bracket structures occur
+            let plain = r.chance(1, 2);
+            let mut s = String::new();
+            let mut items = vec![];
+            while items.len() < n {
+                let it = &ITEMS[r.weighted(&weights)];
+                if plain && (it.k == "quote" || it.k == "semi") {
+                    continue;
+                }
+                s.push_str(it.s);
+                items.push(json!({"k": it.k, "sh": it.sh, "cp": cps_of(it.s)}));
+            }
+            (s, Some(items))
+        } else {
+            let n = 1 + r.below(maxlen + 6);
+            let s: String = (0..n).map(|_| *r.pick(RAW)).collect();
+            (s, None)
+        };
+        let p = pick_cursor(&mut r, &text);
+        if p > text.len() {
+            past += 1;
+        } else if !text.is_char_boundary(p) {
+            inside += 1;
+        }
+        if text.len() != text.chars().count() {
+            multibyte += 1;
+        }
+        let (o, c) = observe(&hl, &text, p);
+        if o["k"] == "text" {
+            changed += 1;
+        }
+        let mut rec = Map::new();
+        rec.insert("id".into(), json!(id));
+        rec.insert("kind".into(), json!(if structured { "struct" } else { "raw" }));
+        if let Some(items) = items {
+            rec.insert("items".into(), Value::Array(items));
+        }
+        rec.insert("cps".into(), cps_of(&text));
+        rec.insert("p".into(), json!(p));
+        rec.insert("out".into(), o);
+        rec.insert("chk".into(), c);
+        writeln!(f, "{}", Value::Object(rec)).map_err(|e| e.to_string())?;
+    }
+    println!(
+        "{}",
+        json!({"records": count, "output_changed": changed, "cursor_inside_multibyte_char": inside,
+               "cursor_past_end": past, "texts_with_multibyte_chars": multibyte})
+    );
+    Ok(())
+}
+
+fn one(args: &[String]) -> Result<(), String> {
+    if args.len() < 2 {
+        return Err("highlight one <cursor> <text>".into());
+    }
+    let p: usize = args[0].parse().map_err(|_| "cursor")?;
+    let text = args[1].replace("\\n", "\n");
+    let hl = ReplHighlighter::new();
+    let (got, out) = run_highlight(&hl, &text, p);
+    println!("highlight: {}   {:?}", hl_json(&got), out);
+    println!("highlight_check: {:?}", run_check(&hl, &text, p));
+    Ok(())
+}
+
+pub fn main(args: &[String]) -> Result<(), String> {
+    match args.first().map(|s| s.as_str()) {
+        Some("replay") => replay(&args[1..]),
+        Some("unicode") => unicode(&args[1..]),
+        Some("one") => one(&args[1..]),
+        _ => Err("highlight replay <file|-> | unicode seed=S count=K out=FILE | one <cursor> <text>".into()),
+    }
 }
